@@ -644,3 +644,81 @@ def postings_unconditional(ctx, rule):
                      {"witness": "records with small ids added out of id order: a record is not listed under its own grams and "
                                  "is never a candidate"}, kind="S")
     ctx.floor(rule, "posting_push_closures", n, 1)
+
+
+def every_posting_counted(ctx, rule):
+    """R18.h: in the candidate method every posting of every query gram increments its counter: the loop over the grams
+    bypasses the posting loop only when the gram is not in the dictionary, and the posting loop increments on every trip
+    (no size cut-off, no sampling)."""
+    r = _prepare_chain(ctx, rule)
+    if r is None:
+        return
+    b, idx_adt, _ = r
+    sy = ctx.sym(b)
+    cfg = ctx.cfg(b)
+    # increments: `+= 1` written through an element of the counter vector
+    incs = []
+    for bi, si, st in b.iter_stmts():
+        if st["k"] != "assign" or b.blocks[bi]["cleanup"] or not st["place"]["p"]:
+            continue
+        rv = st["rv"]
+        e = sy.rvalue(rv)
+        if e[0] == "binop" and e[1] in ("Add", "AddWithOverflow") and S.const_value(e[3]) == 1:
+            dest = S.strip_refs(sy.place(st["place"]))
+            if any(isinstance(x, tuple) and x and x[0] == "call" and x[1].endswith(("get_unchecked_mut", "IndexMut::index_mut", "get_mut"))
+                   for x in S.walk(dest)):
+                incs.append(bi)
+                cty = st["place"].get("ty")
+                if cty in ("u8", "u16", "i8", "i16"):
+                    ctx.fail(rule, "counter-width:%s" % b.id, where(b, bi, st), "shared-gram counters are `%s`: a record sharing more "
+                             "grams with the query than the type holds overflows (panic in a checked build, wrap to 0 and loss of the "
+                             "record otherwise)" % cty, {"witness": "a long title with 256 distinct grams searched by its full text"})
+    key = "every-posting-counted:%s" % b.id
+    if not incs:
+        ctx.fail(rule, key, b.where(), "no counter increment found in the candidate method (fail closed)")
+        return
+    inc = incs[0]
+    ih = cfg.inner_header(inc)
+    inner_next = [x for x, t in b.calls() if (t.get("cn") or "").endswith("Iterator::next") and cfg.inner_header(x) == ih]
+    oh = None
+    for h in cfg.headers():
+        if h != ih and ih is not None and cfg.in_natural_loop(ih, h):
+            oh = h
+    outer_next = [x for x, t in b.calls() if (t.get("cn") or "").endswith("Iterator::next") and cfg.inner_header(x) == oh] if oh is not None else []
+    if ih is None or oh is None or not inner_next or not outer_next:
+        ctx.fail(rule, key, where(b, inc), "the counting loops (grams x postings) are not recognised (fail closed)")
+        return
+
+    def some_target(nb_):
+        tg = b.blocks[nb_]["term"].get("target")
+        sw = b.blocks[tg]["term"] if tg is not None else None
+        st_ = [x for v, x in sw["targets"] if v == 1] if sw is not None and sw["k"] == "switch" else []
+        return st_[0] if st_ else None
+    problems = []
+    # (1) every trip of the posting loop increments
+    s_in = some_target(inner_next[0])
+    if s_in is None or (s_in != inc and cfg.path_exists(s_in, inner_next[0], avoid=[inc])):
+        problems.append("a posting can be passed over without incrementing its counter")
+    # (2) the gram loop bypasses the posting loop only on a dictionary miss
+    s_out = some_target(outer_next[0])
+    region = (cfg.reachable_from(s_out, avoid=[ih, outer_next[0]]) | {s_out}) if s_out is not None else set()
+    for bi, t in b.iter_terms():
+        if t["k"] != "switch" or bi not in region:
+            continue
+        sides = [x for _, x in t["targets"]] + ([t["otherwise"]] if isinstance(t.get("otherwise"), int) else [])
+        bypass = [x for x in sides if (x == outer_next[0] or cfg.path_exists(x, outer_next[0], avoid=[ih])) and
+                  not (x == ih or cfg.path_exists(x, ih, avoid=[outer_next[0]]))]
+        if not bypass or len(bypass) == len(sides):
+            continue
+        e = S.strip_refs(sy.operand(t["discr"]))
+        miss = e[0] == "discr" and any(isinstance(x, tuple) and x and x[0] == "call" and x[1].endswith(("HashMap::get", "HashMap::get_mut"))
+                                       for x in S.walk(e))
+        miss = miss or (e[0] == "call" and e[1].endswith(("Option::is_some", "Option::is_none", "HashMap::contains_key")))
+        if not miss:
+            problems.append("the postings of a gram are skipped under `%s`" % S.show(e, b)[:70])
+    if problems:
+        ctx.fail(rule, key, where(b, inc), "not every posting of every query gram is counted: %s" % "; ".join(problems[:2]),
+                 {"witness": "a record all of whose grams are frequent gets count 0 and is never a candidate"})
+    else:
+        ctx.ok(rule, key, where(b, inc), "every posting of every query gram increments its counter (the gram loop skips only "
+               "grams missing from the dictionary)", nontrivial=True)
